@@ -232,7 +232,7 @@ def judge_histories(d, tp_module, hist_path, props, shards=8, heap="2g", timeout
     return fails, drifts, merge_counts(sums)
 
 
-def trace_validate(d, module, hist_path, keep=None, shards=8, heap="3g", timeout=1500):
+def trace_validate(d, module, hist_path, keep=None, shards=8, heap="3g", timeout=1500, limit=12000):
     """Classic trace validation: every history of the file must be explained by the operational spec
     (TRACE-OK printed per accepted history). Returns (validated, accepted ids, states, transitions)."""
     sel = hist_path + ".tv"
@@ -242,7 +242,7 @@ def trace_validate(d, module, hist_path, keep=None, shards=8, heap="3g", timeout
             if not line.strip():
                 continue
             r = json.loads(line)
-            if keep is None or keep(r):
+            if (keep is None or keep(r)) and len(ids) < limit:
                 g.write(line)
                 ids.append(r["scn"])
     if not ids:
